@@ -263,15 +263,29 @@ def run(ctx):
             if r[0] == 'ok' and not (useL and am == [0, 1]):
                 _cmp(ctx, 'amchar_to_int', lut.amchar_to_int, [r[1], hij], kind='am-multi')
 
-    # 5. electron_shells_start
-    for n in range(-2, 126):
+    # 5. electron_shells_start: as it is, then again after its users (the demon2k / crystal writers adjust the counts they get)
+    #    and after a caller edited a returned list - the answers may not depend on that history
+    def ess_history():
+        import basis_set_exchange as bse
+        for nm, fmt in (('lanl2dz', 'demon2k'), ('def2-svp', 'demon2k'), ('lanl2dz', 'crystal')):
+            impl.call(bse.get_basis, nm, elements=[11, 47] if nm == 'lanl2dz' else [37, 53], fmt=fmt)
+        for n in (0, 10, 28, 46):
+            r = impl.call(lut.electron_shells_start, n)
+            if r[0] == 'ok' and isinstance(r[1], list):
+                for i in range(len(r[1])):
+                    r[1][i] += 1
+    for round_ in (0, 1):
+      if round_ == 1:
+        ess_history()
+      for n in range(-2, 126):
         for mx in (20, 3, 0, 7):
-            r = _cmp(ctx, 'electron_shells_start', lut.electron_shells_start, [n, mx], kind='ess', nontrivial=mx == 20)
+            r = _cmp(ctx, 'electron_shells_start', lut.electron_shells_start, [n, mx], kind='ess' if round_ == 0 else 'ess-after-use', nontrivial=mx == 20)
             if r[0] == 'ok' and 0 <= n <= 118:
                 st = r[1]
                 covered = sum(2 * (2 * l + 1) * (st[l] - l - 1) for l in range(len(st)))
                 if covered != n or len(st) != max(4, mx + 1):
-                    ctx.violation('lut.electron_shells_start', 'count', 'the start quantum numbers do not account for the electrons given',
+                    ctx.violation('lut.electron_shells_start', 'count' if round_ == 0 else 'count:after-use', 'the start quantum numbers do not account for the electrons given'
+                                  + (' (after the writers used the function and a caller edited a result)' if round_ else ''),
                                   {'kind': 'plain', 'nelectrons': n, 'max_am': mx, 'got': st, 'covered': covered})
     ok_counts = [n for n in range(0, 119) if impl.call(lut.electron_shells_start, n)[0] == 'ok']
     ctx.extra['electron_counts_accepted'] = ok_counts
